@@ -977,6 +977,18 @@ func c19Oracle(c *oracleCtx) {
 			return ""
 		})
 	}
+	c.check("retrieval:listof", true, func() string {
+		dl, do := newDList(1), newDObject("k", 1)
+		for n := 1; n <= 3; n++ {
+			ll, lo := NewListOf(dl, n), NewListOf(do, n)
+			for i := 0; i < n; i++ {
+				if ll.Get(i) != any(dl) || ll.GetList(i) != List(dl) || lo.Get(i) != any(do) || lo.GetObject(i) != Object(do) || ll.GetTF("#"+strconv.Itoa(i)) != any(dl) {
+					return fmt.Sprintf("NewListOf(derived, %d): position %d does not hold the identical derived value", n, i)
+				}
+			}
+		}
+		return ""
+	})
 	c.check("retrieval2", true, func() string {
 		dl, do := newDDListInnerFirst(1), newDDObject("k", 1)
 		l := NewList(dl, do)
